@@ -337,7 +337,7 @@ func computeAliases(pkgs []*packages.Package) []string {
 	used := map[string]bool{}
 	var missing []string
 	for k := range Canon {
-		if !strings.Contains(k, "$") && !declared[k] && !strings.HasSuffix(k, ".init") {
+		if !strings.Contains(k, "$") && !strings.HasPrefix(k, "type:") && !declared[k] && !strings.HasSuffix(k, ".init") {
 			missing = append(missing, k)
 		}
 	}
